@@ -254,7 +254,60 @@ def check_ve(ctx, fi):
     body = loops[0].body
     sel = any(isinstance(c, ast.Compare) and len(c.ops) == 1 and isinstance(c.ops[0], ast.In) and U(c.left) == z and
               U(c.comparators[0]).endswith('.domain') for s in body for c in ast.walk(s))
+    # the working set may be keyed by SCOPE (frozenset of a factor's attributes) instead of by a running counter
+    work = None
+    for a_ in fi.body:
+        if isinstance(a_, ast.Assign) and len(a_.targets) == 1 and isinstance(a_.targets[0], ast.Name) and isinstance(a_.value, ast.DictComp) \
+                and len(a_.value.generators) == 1 and U(a_.value.generators[0].iter).split('__')[0] == pots:
+            g_ = a_.value.generators[0]
+            if U(a_.value.value) == U(g_.target) and U(a_.value.key).replace(' ', '') in ('frozenset(%s.domain.attrs)' % U(g_.target), 'frozenset(%s.domain)' % U(g_.target)):
+                work = a_.targets[0].id
+    if work is not None and not sel:
+        # [s for s in W if z in s]: the keys are the scopes
+        sel = any(isinstance(c, ast.comprehension) and U(c.iter) in (work, work + '.keys()', 'list(%s)' % work, 'list(%s.keys())' % work)
+                  and any(isinstance(t_, ast.Compare) and len(t_.ops) == 1 and isinstance(t_.ops[0], ast.In) and U(t_.left) == z
+                          and U(t_.comparators[0]) == U(c.target) for t_ in c.ifs) for s_ in body for c in ast.walk(s_))
     ctx.ob('ve-equations', fi, loops[0], sel, 'eliminating `%s` collects exactly the factors whose domain mentions it' % z)
+    if work is not None:
+        # a new message goes back into a scope-keyed working set: a factor with the same scope may already be there (two messages over one
+        # separator) - it must be ADDED to it (log space), not replace it
+        stores = [s_ for s_ in ast.walk(loops[0]) if isinstance(s_, (ast.Assign, ast.AugAssign)) and
+                  any(isinstance(t_, ast.Subscript) and U(t_.value) == work for t_ in (s_.targets if isinstance(s_, ast.Assign) else [s_.target]))]
+        if not stores:
+            raise AnalysisError('variable_elimination_logspace: the message is not put back into the working set `%s`' % work)
+        for st_ in stores:
+            tg_ = (st_.targets[0] if isinstance(st_, ast.Assign) else st_.target)
+            K = U(tg_.slice)
+            merged = False
+            if isinstance(st_, ast.AugAssign) and isinstance(st_.op, ast.Add):
+                merged = True
+            elif isinstance(st_.value, ast.IfExp):
+                t_ = U(st_.value.test).replace(' ', '')
+                a1, a2 = U(st_.value.body).replace(' ', ''), U(st_.value.orelse).replace(' ', '')
+                cur = '%s[%s]' % (work, K)
+                if t_ == '%sin%s' % (K, work):
+                    merged = a1.startswith(cur + '+') or a1.endswith('+' + cur)
+                elif t_ == '%snotin%s' % (K, work):
+                    merged = a2.startswith(cur + '+') or a2.endswith('+' + cur)
+            elif isinstance(st_.value, ast.BinOp) and isinstance(st_.value.op, ast.Add) and \
+                    '%s[%s]' % (work, K) in (U(st_.value.left).replace(' ', ''), U(st_.value.right).replace(' ', '')):
+                merged = True
+            else:
+                par_ = getattr(st_, '_parent', None)
+                def adds(blk):
+                    return any(isinstance(o_, ast.AugAssign) and isinstance(o_.op, ast.Add) and U(o_.target) == U(tg_) for o_ in blk) or \
+                        any(isinstance(o_, ast.Assign) and U(o_.targets[0]) == U(tg_) and isinstance(o_.value, ast.BinOp) and isinstance(o_.value.op, ast.Add)
+                            and '%s[%s]' % (work, K) in (U(o_.value.left).replace(' ', ''), U(o_.value.right).replace(' ', '')) for o_ in blk)
+                if isinstance(par_, ast.If) and U(par_.test).replace(' ', '') == '%sin%s' % (K, work) and st_ in par_.orelse:
+                    merged = adds(par_.body)
+                if isinstance(par_, ast.If) and U(par_.test).replace(' ', '') in ('%snotin%s' % (K, work),) and st_ in par_.body:
+                    merged = any(isinstance(o_, ast.AugAssign) and isinstance(o_.op, ast.Add) and U(o_.target) == U(tg_) for o_ in par_.orelse) or \
+                        any(isinstance(o_, ast.Assign) and U(o_.targets[0]) == U(tg_) and U(o_.value).replace(' ', '').startswith('%s[%s]+' % (work, K))
+                            for o_ in par_.orelse)
+            ctx.ob('ve-equations', fi, st_, merged,
+                   'the working set `%s` is keyed by scope: a message is %s' % (work, 'added to the factor already stored under its scope' if merged else
+                   'stored under its scope with `%s`, replacing a factor that is already there (two messages over the same attributes, e.g. at a hub '
+                   'clique): that factor drops out of the product' % U(st_)[:60]), construct='message put back into the working set')
 
     def is_add(f):
         return (isinstance(f, ast.Lambda) and isinstance(f.body, ast.BinOp) and isinstance(f.body.op, ast.Add)) or U(f) == 'operator.add'
